@@ -20,6 +20,21 @@ func dumpFunc(p *Program, name string) {
 		fmt.Println(strings.Join(names, "\n"))
 		return
 	}
+	if strings.HasPrefix(name, "returns:") {
+		fn := p.Fn(strings.TrimPrefix(name, "returns:"))
+		if fn == nil {
+			fmt.Println("no such function")
+			return
+		}
+		for _, ret := range returnsOf(fn) {
+			var rs []string
+			for i := 0; i < p.nres(ret); i++ {
+				rs = append(rs, p.expr(p.res(ret, i)))
+			}
+			fmt.Printf("%s in %s: %s\n   facts: %s\n", p.pos(ret.Pos()), p.fnName(ret.Parent()), strings.Join(rs, " | "), factsStr(p.facts(ret)))
+		}
+		return
+	}
 	if name == "params" {
 		var lines []string
 		for k, fn := range p.Funcs {
